@@ -15,6 +15,10 @@ PROP = [  # (substring of the commit subject, property ids)
     ("Hyperplane passes its normal vectors", "C15"),
     ("sl2_irrep accumulates", "C17 (also C12)"), ("take the result dtype from mat @ inv", "C17 (also C12)"),
     ("Hyperplane(normal) in H^1", "C02 (also C15)"),
+    ("fixed points of isometries whose fixed vectors", "C15"), ("normals_only=True", "C15"),
+    ("Polygon.circle_parameters raised", "C14 (also C04)"), ("fixed_point(max_eigval=False) / fixed_point_pair", "C15"),
+    ("regular_surface_polygon raised", "C13"), ("HorosphereArc.circle_parameters paired", "C14"),
+    ("eigenvectors of non-real eigenvalues", "C15"),
     ("symmetric_square called", "C05"), ("parse_simple", "C05"), ("parse_word(simple=False)", "C05"),
     ("integer-dtype representation", "C05 (also C12)"), ("_build_in_dict", "C09"), ("add_edges", "C09"), ("add_vertices creates a plain dict", "C09 (also C10)"), ("end_state", "C06"),
     ("from_angle", "C12"), ("standard_rotation", "C12"), ("integer", "C12"), ("CP1Disk", "C20"), ("intersects", "C20"),
